@@ -461,6 +461,32 @@ class WcsSampler(object):
         self._image = np.float32(data)
         self._wcs = wcs
 
+    def _pix2icrs(self, pix):
+        """
+        Convert 1-based pixel coordinates to ICRS longitudes and latitudes in
+        degrees, the way the sampler sees the image: with any distortion terms
+        of the WCS applied, and converted from the WCS's own celestial frame.
+        """
+        import numpy as np
+
+        world = self._wcs.all_pix2world(pix, 1)
+
+        try:
+            from astropy.wcs.utils import wcs_to_celestial_frame
+
+            frame = wcs_to_celestial_frame(self._wcs)
+        except Exception:
+            frame = None
+
+        if frame is not None and frame.name != "icrs":
+            from astropy.coordinates import SkyCoord
+            from astropy import units as u
+
+            c = SkyCoord(world[:, 0] * u.deg, world[:, 1] * u.deg, frame=frame).icrs
+            world = np.column_stack((c.ra.deg, c.dec.deg))
+
+        return world
+
     def _image_bounds(self):
         """
         Get the bounds of the image.
@@ -486,7 +512,7 @@ class WcsSampler(object):
         coarse_pix[..., 0] = coarse_idx1.reshape((-1, 1))
         coarse_pix[..., 1] = coarse_idx2.reshape((1, -1))
 
-        coarse_world = self._wcs.wcs_pix2world(coarse_pix.reshape((-1, 2)), 1).reshape(
+        coarse_world = self._pix2icrs(coarse_pix.reshape((-1, 2))).reshape(
             (N_COARSE, N_COARSE, 2)
         )
 
@@ -540,9 +566,9 @@ class WcsSampler(object):
 
             # Compute the refined world grid.
 
-            refined_world = self._wcs.wcs_pix2world(
-                refined_pix.reshape((-1, 2)), 1
-            ).reshape((n1, n2, 2))
+            refined_world = self._pix2icrs(refined_pix.reshape((-1, 2))).reshape(
+                (n1, n2, 2)
+            )
 
             # Find the *real* extreme value and convert to radians
 
@@ -629,7 +655,7 @@ class WcsSampler(object):
 
             # Compute the refined world grid.
 
-            refined_lon = self._wcs.wcs_pix2world(refined_pix, 1)[:, 0]
+            refined_lon = self._pix2icrs(refined_pix)[:, 0]
 
             # But wait! We need to re-apply whatever delta was involved in the
             # global unwrapping. I'm 95% sure that we won't ever need to
